@@ -158,6 +158,12 @@ func genC19(t *rapid.T) *C19Case {
 		inject = []string{docYAML(da), yb}
 		c.Names = []string{"own"}
 	}
+	if (c.Kind == "dupnp" || c.Kind == "dupanpname" || c.Kind == "twobanp") && len(inject) == 2 && rapid.IntRange(0, 2).Draw(t, "sameuid") == 0 {
+		// both copies carry the same metadata.uid, as two exports of one cluster object do (their specs may still differ)
+		for i := range inject {
+			inject[i] = strings.Replace(inject[i], "metadata:\n", "metadata:\n  uid: 5b0e3f3c-6c1d-4b0a-9a52-0d2f4a7c9e11\n  resourceVersion: \"1234\"\n", 1)
+		}
+	}
 	var pos []int
 	for i, inj := range inject {
 		p := rapid.IntRange(0, len(docs)).Draw(t, fmt.Sprintf("pos%d", i))
